@@ -86,6 +86,7 @@ pub fn flavours_for(prop: &str) -> Vec<Flavour> {
       v.push(Flavour::Oneshot);
       v
     }
+    "C06" => v,
     "C05" | "C04" | "C09" => {
       v.push(Flavour::Broadcast);
       v.push(Flavour::Oneshot);
@@ -101,6 +102,7 @@ pub fn flavours_for(prop: &str) -> Vec<Flavour> {
 pub fn nt_rule(prop: &str) -> &'static str {
   match prop {
     "C05" => "at least one thread actually blocked (park) and was later released in some schedule",
+    "C06" => "a receive or send future was polled to Pending and abandoned (cancelled) while another thread or task was waiting on the same channel, and a thread parked",
     "C03" => "some send was refused or had to wait",
     "C04" => "a sender finished/closed while a receiver was mid-operation (Disconnected observed by a blocked or polling receiver) or a send failed Closed",
     "C02" => "two producers overlapped or a batch form was used, and a consumer received two values of one producer",
@@ -164,17 +166,77 @@ fn cancel_focused(flavours: Vec<Flavour>, schedules: usize) -> BoxedStrategy<Sce
     let maxc = if f.multi_rx() { 3 } else { 1 };
     (
       proptest::collection::vec(proptest::collection::vec(prop_oneof![4 => Just(POp::Send), 1 => Just(POp::Yield)], 1..3), 1..=maxp),
-      proptest::collection::vec((proptest::collection::vec(cop.clone(), 1..4), Just(false)), 1..=maxc),
+      // (ops, flip): a flipped consumer converts its handle first, so sync and async waiters of
+      // one channel are mixed ("this holds for any mix of sync and async handles on one channel")
+      proptest::collection::vec((proptest::collection::vec(cop.clone(), 1..4), any::<bool>()), 1..=maxc),
       any::<bool>(),
     )
-      .prop_map(move |(producers, consumers, a)| Scenario { flavour: f, async_start: a, cap: 4, producers, consumers, seed, schedules, balanced: true, reserve: true })
+      .prop_map(move |(producers, consumers, a)| {
+        let consumers = consumers
+          .into_iter()
+          .map(|(mut ops, flip)| {
+            if flip {
+              ops.insert(0, COp::Convert);
+            }
+            (ops, false)
+          })
+          .collect();
+        Scenario { flavour: f, async_start: a, cap: 4, producers, consumers, seed, schedules, balanced: true, reserve: true }
+      })
+  }).boxed()
+}
+
+/// Cancel-and-drain family: a small capacity, a producer that sends more than fits (so it has to
+/// wait for space), one or two consumers that start receives and abandon them (cancelled futures,
+/// timed receives) and then stop, and one consumer of the other handle form that drains until
+/// Disconnected.  A notification swallowed by an abandoned receive leaves the value buffered, the
+/// producer waiting for space and the drainer waiting for a wake: nobody makes up for it.
+fn cancel_drain(flavours: Vec<Flavour>, schedules: usize) -> BoxedStrategy<Scenario> {
+  let fl: Vec<Flavour> = flavours.into_iter().filter(|f| f.multi_rx() && f.has_batch() && *f != Flavour::Broadcast).collect();
+  if fl.is_empty() {
+    return cancel_focused(vec![], schedules);
+  }
+  let quitter = prop_oneof![4 => Just(COp::RecvCancel), 1 => Just(COp::RecvTimeout(false)), 1 => Just(COp::RecvTimeout(true)), 1 => Just(COp::Yield)];
+  (proptest::sample::select(fl), any::<u64>(), prop_oneof![3 => Just(1usize), 2 => Just(2usize), 1 => Just(3usize)]).prop_flat_map(move |(f, seed, cap)| {
+    (
+      proptest::collection::vec(proptest::collection::vec(quitter.clone(), 1..3), 1..=2),
+      (cap + 1)..(cap + 5),
+      any::<bool>(),
+      any::<bool>(),
+      any::<bool>(),
+    )
+      .prop_map(move |(quitters, nsend, a, drainer_first, batch_drain)| {
+        let mut consumers: Vec<(Vec<COp>, bool)> = quitters.into_iter().map(|ops| (ops, false)).collect();
+        // the drainer uses the other handle form than the quitters
+        let drainer = (if batch_drain { vec![COp::Convert, COp::RecvBatch(2)] } else { vec![COp::Convert] }, true);
+        if drainer_first {
+          consumers.insert(0, drainer);
+        } else {
+          consumers.push(drainer);
+        }
+        let producers = vec![(0..nsend).map(|_| POp::Send).collect::<Vec<_>>()];
+        Scenario { flavour: f, async_start: a, cap: if f.unbounded() { 1 } else { cap }, producers, consumers, seed, schedules, balanced: false, reserve: false }
+      })
   }).boxed()
 }
 
 pub fn scenario_strategy(flavours: Vec<Flavour>, prop: &str, schedules: usize) -> BoxedStrategy<Scenario> {
+  if prop == "C06" {
+    // every program has cancelled futures racing blocked threads / pending tasks
+    let focused = cancel_focused(flavours.clone(), schedules);
+    let drain = cancel_drain(flavours, schedules);
+    return prop_oneof![1 => focused, 1 => drain].boxed();
+  }
+  if prop == "C05" || prop == "C01" {
+    let focused = cancel_focused(flavours.clone(), schedules);
+    let drain = cancel_drain(flavours.clone(), schedules);
+    let general = scenario_strategy_general(flavours, prop, schedules);
+    let w = if prop == "C01" { 1 } else { 4 };
+    return prop_oneof![10 => general, 4 => focused, w => drain].boxed();
+  }
   let focused = cancel_focused(flavours.clone(), schedules);
   let general = scenario_strategy_general(flavours, prop, schedules);
-  let wf = if prop == "C05" || prop == "C06" { 3 } else { 1 };
+  let wf = if prop == "C05" || prop == "C06" { 5 } else { 1 };
   prop_oneof![10 => general, wf => focused].boxed()
 }
 
@@ -1125,6 +1187,12 @@ fn judge(s: &Scenario, st: ExecState, panic_msg: Option<String>, drainer_exists:
         "C04"
       } else if cur == "C07" && s.flavour == Flavour::Broadcast {
         "C07"
+      } else if cur == "C06" {
+        // C06: "an executor that polls only woken tasks never stalls while progress is possible;
+        // this holds for any mix of sync and async handles on one channel.  Dropping a pending
+        // future ... does not swallow a wakeup that another waiting task needs" — under the C06
+        // check only executions with async handles / futures in play are generated
+        "C06"
       } else {
         "C05"
       };
@@ -1197,7 +1265,7 @@ fn judge(s: &Scenario, st: ExecState, panic_msg: Option<String>, drainer_exists:
     "C09" => unreceived_ok > 0 || l.closed_send,
     // C05: "at least one thread actually parked ... and was later released" (the execution
     // finished, so whoever parked was released)
-    "C05" => parked,
+    "C05" | "C06" => parked,
     _ => (l.send_refused && l.send_ok) || l.timeout_fired_with_live_sender,
   };
   if parked {
